@@ -5,6 +5,7 @@ package aggregate
 
 import (
 	"fmt"
+	"math"
 
 	"github.com/efficientgo/core/errors"
 
@@ -75,9 +76,26 @@ func newVectorAccumulator(expr parser.ItemType) (vectorAccumulator, error) {
 	case "sum":
 		return floats.Sum, nil
 	case "max":
-		return floats.Max, nil
+		return func(in []float64) float64 {
+			// Same as the Prometheus engine: a NaN is replaced by any other value.
+			max := in[0]
+			for _, v := range in[1:] {
+				if max < v || math.IsNaN(max) {
+					max = v
+				}
+			}
+			return max
+		}, nil
 	case "min":
-		return floats.Min, nil
+		return func(in []float64) float64 {
+			min := in[0]
+			for _, v := range in[1:] {
+				if min > v || math.IsNaN(min) {
+					min = v
+				}
+			}
+			return min
+		}, nil
 	case "count":
 		return func(in []float64) float64 {
 			return float64(len(in))
